@@ -15,7 +15,7 @@
 #include "dict_obj.h"
 #include "parallel/Worker.hpp"
 
-extern "C" size_t libcsd_verif_memalloc = 32768;
+extern "C" int libcsd_verif_memalloc = 32768;
 
 namespace vh {
 
